@@ -19,7 +19,7 @@ RULE = (
     "arbitrary: plain and source = all strings <= n over {x,y,<,' ',>} (source also None), all ordered span tuples of "
     "<= 2 spans (empty, touching, nested, overlapping, duplicate, unsorted; 3 spans for |plain| <= 3 in thorough) x 3 modes "
     "x 2 engines; forced: plain 'wxyz' with <= 2 insertions of tags/whitespace at every gap; trees: all element trees with "
-    "<= 2 elements (tags i, b, p and I, em, B) over 4 letters; markers: 6 families of before/after strings with regex/format metacharacters x all forced sources "
+    "<= 2 elements (tags i, b, p and I, em, B) over 4 letters, each also through the annotator= hook with the concatenating function; markers: 6 families of before/after strings with regex/format metacharacters x all forced sources "
     "x all <= 2-span tuples x 3 modes. distinct = distinct (plain, source, spans); non-trivial = >= 1 non-empty span and a "
     "source different from plain, or >= 2 spans."
 )
@@ -48,7 +48,7 @@ HOSTILE_MARKS = [
 ]
 
 
-def check(plain, source, ss, mode, dmp, marks=None):
+def check(plain, source, ss, mode, dmp, marks=None, with_annotator=False):
     k = len(ss)
     target = plain if not source else source
     try:
@@ -63,12 +63,30 @@ def check(plain, source, ss, mode, dmp, marks=None):
             stripped = stripped.replace(b, "").replace(a, "")
     if not isinstance(out, str) or stripped != target:
         return [(f"strip-{mode}", f"output {out!r} does not strip to the target {target!r}" + (f" (markers {marks[:k]})" if marks else ""))]
+    if with_annotator:
+        # the documented custom-annotator hook, given the concatenating function the default path uses, must produce the same
+        # output, and every piece it is handed must be a piece of that output
+        seen = []
+
+        def concat(b, t, a):
+            seen.append((b, t, a))
+            return b + t + a
+
+        try:
+            out2 = annot.annotate(plain, ss, source, mode, dmp, marks, annotator=concat)
+        except Exception as e:  # noqa: BLE001
+            return [(f"annotator-raise-{mode}", short_exc(e))]
+        if out2 != out:
+            return [(f"annotator-differs-{mode}", f"with annotator=concatenate the output is {out2!r}, without it {out!r}")]
+        for b, t, a in seen:
+            if not (isinstance(t, str) and (b + t + a) in out):
+                return [(f"annotator-args-{mode}", f"annotator was called with {(b, t, a)!r}, which is not a piece of the output {out!r}")]
     return []
 
 
 def replay(case):
     marks = [tuple(m) for m in case["marks"]] if case.get("marks") else None
-    res = check(case["plain"], case["source"], [tuple(s) for s in case["spans"]], case["mode"], case["dmp"], marks)
+    res = check(case["plain"], case["source"], [tuple(s) for s in case["spans"]], case["mode"], case["dmp"], marks, with_annotator=bool(case.get("annotator")))
     return [{"msg": f"{lab}: {det} :: {case}", "label": lab} for lab, det in res]
 
 
@@ -89,6 +107,10 @@ def shards(tier, seed):
     return out
 
 
+def opt_shards(tier):
+    return [{"part": "trees", "r": r, "n": 8, "max_el": 2} for r in range(8)] + [{"part": "markers", "mi": 0}]
+
+
 def run_shard(sh):
     st = Stats()
     p = st.part(sh["part"])
@@ -107,10 +129,10 @@ def run_shard(sh):
                 st.traces += 1
                 st.transitions += 1
                 p["evaluations"] += 1
-                res = check(plain, source, ss, mode, dmp)
+                res = check(plain, source, ss, mode, dmp, with_annotator=sh["part"] == "trees")
                 st.outcomes.add(h64([r[0] for r in res]) if res else 0)
                 for lab, det in res:
-                    case = {"plain": plain, "source": source, "spans": [list(s) for s in ss], "mode": mode, "dmp": dmp}
+                    case = {"plain": plain, "source": source, "spans": [list(s) for s in ss], "mode": mode, "dmp": dmp, "annotator": sh["part"] == "trees"}
                     st.violation(case, f"{lab}: {det} :: plain={plain!r} source={source!r} spans={ss} engine={'dmp' if dmp else 'difflib'}", label=f"{sh['part']}-{lab}")
 
     if sh["part"] == "markers":
